@@ -2,6 +2,7 @@
 #include "support/vp.hpp"
 #include "support/ufw.hpp"
 #include "shims/bf_alias.h"
+#include "shims/bf_const.h"
 
 static unsigned g_idx; static uint64_t g_x, g_y;
 static std::string ser() { return vp::fmt("alias %u %llu %llu\n", g_idx, (unsigned long long)g_x, (unsigned long long)g_y); }
@@ -15,11 +16,37 @@ static bool one(unsigned idx, uint64_t x, uint64_t y) {
     if (!ok) vp::fail(std::string("alias:") + vp_alias_probes[idx].name, vp::fmt("the second load after the caller's typed store of %llx over %llx does not return the new content", (unsigned long long)y, (unsigned long long)x), ser());
     return ok;
 }
+// ---- compile-time constants: expectation by octet arithmetic from (function name, constant)
+static std::string g_crep;
+static void const_report(const char *name, uint64_t c, const unsigned char *img, unsigned n, uint64_t result) {
+    std::string f = name; g_crep = vp::fmt("const %s %llu\n", name, (unsigned long long)c);
+    vp::count();
+    auto bad = [&](const std::string &m) { vp::fail(std::string("constant-argument:") + name, m + vp::fmt(" (constant %llx)", (unsigned long long)c), g_crep); };
+    if (f.rfind("bf_swap", 0) == 0) {
+        unsigned w = (unsigned)atoi(name + 7) / 8; uint64_t v = w == 8 ? c : (c & ((1ull << (8 * w)) - 1)), want = 0;
+        for (unsigned i = 0; i < w; i++) want |= ((v >> (8 * i)) & 0xff) << (8 * (w - 1 - i));
+        if (result != want) bad(vp::fmt("returned %llx, expected %llx", (unsigned long long)result, (unsigned long long)want));
+        return;
+    }
+    if (f.rfind("bf_set_", 0) == 0) {
+        char order = f.back(); uint8_t want[8];
+        for (unsigned i = 0; i < n; i++) { uint8_t o = (uint8_t)(c >> (8 * i)); if (order == 'b') want[n - 1 - i] = o; else want[i] = o; }
+        if (memcmp(img, want, n) != 0) bad("stored " + vp::hex(img, n) + " expected " + vp::hex(want, n));
+        for (unsigned i = n; i < 8; i++) if (img[i] != 0x5c) { bad("octets behind the value changed"); break; }
+        return;
+    }
+    // bf_ref_<k><width><order> of the first n octets of the image
+    char order = f.back(), kind = f[7]; uint64_t v = 0;
+    for (unsigned i = 0; i < n; i++) v |= (uint64_t)(order == 'b' ? img[n - 1 - i] : img[i]) << (8 * i);
+    if (kind == 's' && n < 8 && (v >> (8 * n - 1)) & 1) v |= ~0ull << (8 * n);
+    if (result != v) bad(vp::fmt("loaded %llx from %s, expected %llx", (unsigned long long)result, vp::hex(img, n).c_str(), (unsigned long long)v));
+}
 static void run() {
     auto &a = vp::args();
+    if (a.shard == 0) { vp::CaseScope cs([] { return g_crep; }); vp_const_run(const_report); vp::cls("codec-called-with-compile-time-constants"); vp::nontrivial(0xc0457a47ull); }
     vp::CaseScope scope([] { return ser(); });
     vp::stats().rule = "enum: 15 (loader, store type) probes - 64-bit loaders after stores through double / unsigned long long / long long, 32-bit loaders after stores through float / int / unsigned - "
-                       "each as store x, load, store y, load in one function compiled at -O2 with strict aliasing and without sanitizers; value pairs: single bits, complements, float patterns, random";
+                       "each as store x, load, store y, load in one function compiled at -O2 with strict aliasing and without sanitizers; value pairs: single bits, complements, float patterns, random; and every store / swap with 14 literal constants plus loads from static const images in the same kind of build (constant folding in the header)";
     vp::stats().exhaustive = false;
     vp::Rng rng(a.seed * 31337 + a.shard);
     std::vector<uint64_t> vals = {0, 1, ~0ull, 0x8000000000000000ull, 0x3ff0000000000000ull, 0x7ff8000000000001ull, 0x0123456789abcdefull, 0x00000000ffffffffull, 0x3f8000003f800000ull};
@@ -32,6 +59,7 @@ static void run() {
 }
 static bool replay(const std::string &text) {
     auto w = vp::split(vp::lines(text).at(0));
+    if (!w.empty() && w[0] == "const") { vp_const_run(const_report); return vp::stats().failures.empty(); }
     if (w.size() < 4 || w[0] != "alias") return false;
     unsigned idx = (unsigned)atoi(w[1].c_str());
     if (idx >= vp_alias_probe_count) return false;
